@@ -30,7 +30,7 @@ func init() {
 		Run:   run,
 		Setup: func(c *core.Ctx) { c.State = &aliasState{} },
 		Floors: func(t string) map[string]int64 {
-			return map[string]int64{"numeral.exponent": 1000, "numeral.17digits": 1000, "unsupported.rejected": 100, "members>1": 1000,
+			return map[string]int64{"numeral.exponent": 1000, "numeral.17digits": 1000, "unsupported.rejected": 100, "members>1": 1000, "members.many": 100,
 				"type.Point": 100, "type.LineString": 100, "type.MultiLineString": 100, "type.Polygon": 100, "type.MultiPolygon": 100}
 		},
 	})
@@ -65,6 +65,11 @@ func run(c *core.Ctx, idx int) {
 	}
 	k := []int{gen.KPoint, gen.KLineString, gen.KMultiLineString, gen.KPolygon, gen.KMultiPolygon}[r.Intn(5)]
 	g := gen.RandGeomKind(r, o, k, 0)
+	if k != gen.KPoint && k != gen.KLineString && r.Chance(0.012) {
+		// hundreds to thousands of small members (counts on both sides of / multiples of 128 .. 8192)
+		g = gen.ManyMembers(r, k, o.Coord)
+		c.Count("members.many")
+	}
 	name := fmt.Sprintf("%T", g)[5:]
 	c.Count("type." + name)
 	detail := map[string]interface{}{"geometry": gen.Dump(g)}
